@@ -1,10 +1,20 @@
 #!/bin/bash
-# runs in the vp snapshot (cwd = snapshot of /verif)
-export VERIF_OUT=/dev/shm/thorough
-mkdir -p /dev/shm/thorough
-for id in "$@"; do
+# runs in a vp snapshot (cwd = snapshot of /verif): thorough tier of the given checks, one after the other.
+# An item is ID or ID:FILTER (FILTER = PDBMC_ONLY, a substring of the scenario names to run).
+# With `vp run --with-repo` the harness is pointed at the run's own copy of the repository ($VP_RUN_REPO), so that
+# /repo itself is free for something else (a seed matrix) in the meantime. Results are for information only:
+# evidence always comes from ./check run in /verif against /repo.
+tag=${TAG:-thorough}
+export VERIF_OUT=/dev/shm/$tag
+mkdir -p /dev/shm/$tag
+if [ -n "$VP_RUN_REPO" ]; then
+  sed -i "s|path = \"/repo\"|path = \"$VP_RUN_REPO\"|" mc/Cargo.toml mc-loom/Cargo.toml
+fi
+for item in "$@"; do
+  id=${item%%:*}; only=""
+  if [ "$id" != "$item" ]; then only=${item#*:}; fi
   s=$(date +%s)
-  ./check $id thorough > /dev/shm/thorough/$id.log 2>&1
-  echo "$id rc=$? $(( $(date +%s)-s ))s viol=$(grep -c '^VIOLATION' /dev/shm/thorough/$id.log) known=$(grep -c '^KNOWN' /dev/shm/thorough/$id.log) capped=$(grep -c CAPPED /dev/shm/thorough/$id.log)" >> /dev/shm/thorough/summary.txt
+  if [ -n "$only" ]; then PDBMC_ONLY="$only" ./check $id thorough > /dev/shm/$tag/$id.log 2>&1; else ./check $id thorough > /dev/shm/$tag/$id.log 2>&1; fi
+  echo "$item rc=$? $(( $(date +%s)-s ))s viol=$(grep -c '^VIOLATION' /dev/shm/$tag/$id.log) machinery=$(grep -c 'MACHINERY' /dev/shm/$tag/$id.log) known=$(grep -c '^KNOWN' /dev/shm/$tag/$id.log) capped=$(grep -c CAPPED /dev/shm/$tag/$id.log)" | tee -a /dev/shm/$tag/summary.txt
 done
-echo ALLDONE >> /dev/shm/thorough/summary.txt
+echo ALLDONE >> /dev/shm/$tag/summary.txt
